@@ -178,6 +178,11 @@ def landscape_case(case, ctx):
     if ax.get_title() != "LT" or ax.get_xlabel() != "xx" or ax.get_ylabel() != "yy":
         ctx.violation("landscape-plot-labels", "title / axis labels of the landscape plot are not the requested ones",
                       observed=[ax.get_title(), ax.get_xlabel(), ax.get_ylabel()], expected=["LT", "xx", "yy"], extra=ex)
+    # the depths are told apart by the legend: one entry per plotted depth
+    leg = ax.get_legend()
+    n_leg = len(leg.get_texts()) if leg is not None else 0
+    if plotted and n_leg != len(plotted):
+        ctx.violation("landscape-plot-legend", "the landscape plot's legend must have one entry per plotted depth", observed=n_leg, expected=len(plotted), extra=ex)
     for line, k in zip(lines, plotted):
         xy = np.asarray(line.get_xydata(), dtype=float)
         if case["cls"] == "exact":
